@@ -169,6 +169,36 @@ def gen_cases0(ctx):
     return cases
 
 
+_STUCK = [0]
+
+
+def other_thread_blocked(dec, wait=5.0):
+    """After a predicate raised, another thread (the replication threads read and fast-forward runs) must still get at
+    every run: returns the accessor it is stuck in, or None."""
+    import threading
+    if _STUCK[0] >= 2:         # (each detection costs the full wait: two per worker process are enough)
+        return None
+    at = ["start"]
+
+    def body():
+        for r in dec.all_runs():
+            for name in ("block_index", "is_halted", "is_complete", "history", "serialize"):
+                at[0] = "BoboRun.%s of run %s" % (name, r.run_id)
+                v = getattr(r, name)
+                if callable(v):
+                    v()
+        at[0] = "BoboDecider.snapshot"
+        dec.snapshot()
+        at[0] = None
+    th = threading.Thread(target=body, daemon=True)
+    th.start()
+    th.join(wait)
+    if th.is_alive():
+        _STUCK[0] += 1
+        return at[0]
+    return None
+
+
 def work(case):
     cfg, ops, t_first = case
     dec, rec = SD.make_decider(cfg)
@@ -225,6 +255,14 @@ def work(case):
                     fail = dict(signature="other-runs-differ-from-false-variant", step=k,
                                 what="runs on which nothing raised were reported differently than when the predicate returns False",
                                 detail=dict(raise_variant=a, false_variant=b))
+        if raised and fail is None:
+            stuck = other_thread_blocked(dec)
+            if stuck:
+                fail = dict(signature="run-left-locked-after-raise", step=k,
+                            what="after a predicate raised on event %d another thread never returns from %s: the run is "
+                                 "not as it was before the event (its lock is still held by the engine thread)" % (k, stuck),
+                            detail=None)
+                return out, True, fail
         if raised:
             diverged = True      # from here on the two variants legitimately differ on the runs that raised
     return out, nontrivial, fail
